@@ -5,6 +5,7 @@ CONSTANTS Callers = {c1, c2}
  MaxAtt = 3
  FreshKey = TRUE
  MaxJunk = 0
+ MaxClose = 0
  Kinds = {"obj"}
  Dev = {}
 INVARIANTS WireIdsIncrease SeqNoRules OwnResult TypedVector LoopAlive AcceptedNeverResent SaltPersisted NoStallNotify NoStallDeliver AckedAll
